@@ -23,7 +23,7 @@ from pyvc.values import SInt, SBool, And, Or, Not, Implies, mk_bool, Unsupported
 from pyvc.interp import PyRaise
 from pyvc.loops import ForSpec
 from pyvc.harness import native_call
-from .common import raw, loop_keys
+from .common import harness_connection, native_connection, raw, loop_keys
 
 ASSUMPTIONS = [
     'listener callbacks do not mutate the listener lists while a packet is being dispatched',
@@ -129,7 +129,7 @@ class Dispatch(Unit):
         self.last = None
         self.n_early = E.new_int('n_early', 0, None)
         self.n_normal = E.new_int('n_normal', 0, None)
-        conn = object.__new__(Connection)
+        conn = harness_connection()
         lists = dict(early=AbsList('early', self.n_early), normal=AbsList('normal', self.n_normal))
         unit = self
         main_behaviour = E.fork(3, 'main-stage')
@@ -232,7 +232,7 @@ def replay_dispatch(which, rng=None):
     """The executable contract on the real Connection with concrete listeners."""
     import random
     rng = rng or random.Random(7)
-    conn = object.__new__(Connection)
+    conn = native_connection()
     conn.early_packet_listeners, conn.packet_listeners = [], []
     conn.early_outgoing_packet_listeners, conn.outgoing_packet_listeners = [], []
     trace = []
@@ -296,7 +296,7 @@ class Register(Unit):
 
     def run(self, I):
         E = I.E
-        conn = object.__new__(Connection)
+        conn = harness_connection()
         names = ('packet_listeners', 'early_packet_listeners', 'outgoing_packet_listeners', 'early_outgoing_packet_listeners')
         pre = {n: ['x%d' % i for i in range(k)] for k, n in enumerate(names)}
         for n in names:
@@ -490,7 +490,7 @@ class Decorator(Unit):
         ntypes = E.fork(3, 'types')
         types_ = (PA, PC)[:ntypes]
         cb = lambda p: None
-        a, b = object.__new__(Connection), object.__new__(Connection)
+        a, b = harness_connection(), harness_connection()
         for c in (a, b):
             for n in names:
                 c.__dict__[n] = ['x']
